@@ -9,6 +9,7 @@ TraceNext == /\ l <= Len(T)
              /\ \/ (T[l].e = "list" /\ List /\ Match)
                 \/ (T[l].e = "fire" /\ (\E pos \in 1..8 : Fire(T[l].task, pos)) /\ Match)
                 \/ (T[l].e = "noop" /\ Noop /\ Match)
+                \/ (T[l].e = "adopt" /\ Adopt(T[l].task) /\ Match)
              /\ tid' = tid
 TraceSpec == TraceInit /\ [][TraceNext]_<<vars, tid, l>>
 Progress == TLCGet(tid) >= l \/ TLCSet(tid, l)
